@@ -18,7 +18,7 @@ theorem C01_dispatch_refines_spec (c : Chart) (hwf : WF c) (cur : St) (n : Nat) 
     ∃ r, dispatch c Miros.Gen.cfg cur n = .ok r ∧
       actions r.log = (specDispatch c cur n).log ∧ r.state = (specDispatch c cur n).state ∧
       r.temp = r.state := by
-  have h := dispatch_checked c Miros.Gen.cfg (by decide) (by decide) hwf.init_depth hwf.tran_ne_top cur n
+  have h := dispatch_checked c hwf.no_fall Miros.Gen.cfg (by decide) (by decide) hwf.init_depth hwf.tran_ne_top cur n
   rw [specDispatchC_of_WF c hwf cur n] at h
   obtain ⟨r, h1, h2, h3, h4⟩ := h
   exact ⟨r, h1, h2, h3, by rw [h4, h3]⟩
@@ -87,6 +87,7 @@ def demo : Chart where
   init := fun s => if s = s3 then some s8 else none
   exitH := fun _ => true
   depth := 7
+  fall := fun _ => false
 
 theorem demo_WF : WF demo where
   init_desc := by
@@ -111,6 +112,7 @@ theorem demo_WF : WF demo where
     intro s n
     simp only [demo]
     split <;> simp
+  no_fall := fun _ => rfl
 
 example : (offers demo 0 s8).2 = .tran s8 s3 := by decide
 example : boundary s8 s3 = s3 := by decide
